@@ -891,13 +891,22 @@ def run_timer(seed, tier):
     violations = []
     for m in mism:
         f = m["req"].split(" ")
+        if f[0] == "swatch":
+            recs = f[1].split(","); snaps = [x for x in recs if x.startswith("s")]; b = m["model"].split(",")
+            k = next((j for j, y in enumerate(b) if y != "in"), 0)
+            hist = recs[:recs.index(snaps[k]) + 1] if k < len(snaps) else recs
+            val = snaps[k].split(":")[2] if k < len(snaps) else "?"
+            violations.append({"what": f"StopwatchStart: after the operations {' '.join(x[0] + '@' + x[1:].split(':')[0] for x in hist)} (n new, p pause, r resume, s snapshot; @ the harness's clock in µs) snapshot().active is {val} µs, "
+                                       f"but the time that passed while the watch was not paused lies in [{b[k].split(':')[1] if b[k].startswith('out') else '?'}, {b[k].split(':')[2] if b[k].startswith('out') else '?'}] µs — time spent paused must be excluded from reported durations, running time counted",
+                               "payload": {"stream": m["origin"][:2], "line_index": m["origin"][2], "request": m["req"], "impl": m["impl"], "spec": m["model"]}, "kind": "timer"})
+            continue
         ops = f[2].split(","); a = m["impl"].split(","); b = m["model"].split(",")
         k = next((j for j, (x, y) in enumerate(zip(a, b)) if x != y), min(len(a), len(b)))
         violations.append({"what": f"PausableSleep({f[1]} ms) after the operations {','.join(ops[:k + 1])} (a<ms> advance the clock, p pause, r resume, s<ms> reset, l reset to the last duration): "
                                    f"{'fired' if a[k][:1] == 'f' else 'not fired'}/{'paused' if a[k][1:] == 'P' else 'running'}, expected {'fired' if b[k][:1] == 'f' else 'not fired'}/{'paused' if b[k][1:] == 'P' else 'running'} — time spent paused must not count, and a re-armed sleep must get its configured period" if k < len(a) and k < len(b) else f"PausableSleep: {m['impl']} vs {m['model']} on {m['req']}",
                            "payload": {"stream": m["origin"][:2], "line_index": m["origin"][2], "request": m["req"], "impl": m["impl"], "spec": m["model"]}, "kind": "timer"})
-    return {"evaluations": len(items), "distinct_nontrivial": len({q for _, q, i in items if "f" in i}), "traces": len(items),
-            "rule": "p_timer: the real PausableSleep (guarded hook VerifSleep) on a current-thread runtime with a paused clock, 1-14 operations (advance the clock by 0-1000 ms, pause / resume legally, reset to a new duration, reset to the last duration) from initial durations 0-1000 ms; `fired` (one poll) and `is_paused` after every operation compared with Model/Unit.PSleep; non-trivial = the sleep fires at some point",
+    return {"evaluations": len(items), "distinct_nontrivial": len({q for _, q, i in items if "f" in i or q.startswith("swatch")}), "traces": len(items),
+            "rule": "p_timer: the real PausableSleep (guarded hook VerifSleep) on a current-thread runtime with a paused clock, 1-14 operations (advance the clock by 0-1000 ms, pause / resume legally, reset to a new duration, reset to the last duration) from initial durations 0-1000 ms; `fired` (one poll) and `is_paused` after every operation compared with Model/Unit.PSleep; and the real StopwatchStart (guarded hook VerifStopwatch) paused and resumed around real sleeps of 1-7 ms, every operation bracketed by two readings of the harness's clock: each snapshot().active must lie between what Model/Unit.Watch gives for the shortest and the longest times compatible with the readings; non-trivial = the sleep fires at some point, or a stopwatch case",
             "samples": [f"{q}  =>  {i}" for (_, q, i) in items[:3]], "dist": {"timer:" + k: v for k, v in r.dist.items()},
             "violations": violations, "broken": r.broken, "impl_failures": r.impl_failures}
 
